@@ -1,17 +1,273 @@
-"""C14: denied fields never reach the client (renderer part: post-fetch decisions) -- see DESIGN.md.
-Shares the C02 model (which carries the decision function) and harness (with -auth 1)."""
+"""C14: denied fields never reach the client and denied mutations never reach a subgraph -- see DESIGN.md.
+
+Two parts, one check, one evidence file:
+ * renderer part (post-fetch decisions; a denied field is null, reported at its path, null-propagates):
+   the C02 model carries the decision function -- c02.run(prop="C14", auth=True), unchanged;
+ * planner / loader part on the federation lab (harness/cmd/c14 + harness/c14lab, coq/C14, ocaml/c14):
+   coordinate collector, pre-fetch seeding, fetch gate, coordinate per mode, both authorizer modes."""
+import json
+import os
+import re
+
 import vlib
 from props import c02
 
+RULE_FED = ("fedlab part: (a) two hand-written federations -- an interface whose implementers are entities extended by two other "
+            "subgraphs with a @requires field, a shareable field and a second key (16 operations x 7 protected sets), and a "
+            "federation with mutation root fields in two subgraphs (9 operations x 4 protected sets) -- and (b) generated "
+            "federations (gvh/fedlab, all knobs; universes re-written so that every stored String/ID leaf is a unique "
+            "sentinel) with 5 generated operations each and two protected sets per configuration drawn from the coordinates "
+            "the operations reach (plan-time and runtime types, plus up to two unreached ones; closed across interfaces "
+            "except for the second set of every third configuration). For every operation the decision functions range over "
+            "all coordinates an authorizer can be asked about for it (response positions and the collector's list, which "
+            "includes planner-added @key/@requires inputs): all 2^n when n <= 6, else 200 (thorough) / 64 (quick) random ones "
+            "incl. allow-all and deny-all; each runs through ExecutionEngine.Execute with engine.WithAuthorizer (post-fetch) "
+            "and with engine.WithPreFetchFieldAuthorizer (pre-fetch). Operations whose un-authorized run already differs "
+            "from the monolith are skipped (C01 territory). A run is non-trivial when at least one denied position holds a "
+            "non-null value in the un-authorized response; an operation line is non-trivial when the plan carries a protected "
+            "coordinate. Distinct by hash of the line.")
+
+# narrow keys of the findings of the fedlab part: (key, regex on the failed clause + detail)
+KNOWN = [
+    ("gate-entity-fetch-below-fragment-has-no-root-fields", r"^fetch_gate/no-rootfields "),
+    ("merged-field-keeps-rule-of-unconditioned-occurrence", r"^(denied_absent|denied_reported|sentinel_absent|collector_complete)/merged "),
+    ("prefetch-gate-starves-fetch-depending-on-denied-input",
+     r"^(requires_input_intact |(allowed_untouched|propagates_like_null)/hidden-input\[)"),
+]
+
+KNOWN_TEXT = {
+    "gate-entity-fetch-below-fragment-has-no-root-fields":
+        "plan/path_builder_visitor.go fieldIsChildNode compares the walker path with the planner's parent path textually; below an "
+        "inline fragment the path has an extra `$0Type` element, so every field of an entity fetch planned under `... on T` counts "
+        "as a child node and FetchInfo.RootFields stays EMPTY. isFetchAuthorizedFromCache (and the legacy AuthorizePreFetch loop, "
+        "and the collector's fetch side) then see no root field: with P={Product.price} denied, `{ nodes { ... on Product { price } } }` "
+        "still sends `_entities{... on Product{__typename price}}` to the subgraph in pre-fetch mode, while `{ product { price } }` "
+        "(same fetch without the fragment) is held back. The response is still nulled by the renderer; only the request-not-sent "
+        "guarantee is lost.",
+    "merged-field-keeps-rule-of-unconditioned-occurrence":
+        "postprocess/merge_fields.go step 3 merges a field without type condition over the same response key selected under "
+        "`... on T` and keeps only the FieldInfo of the unconditioned one (mergeValues merges the values, never Info): "
+        "`{ nodes { secret ... on User { secret } } }` plans ONE field `secret` with coordinate Node.secret; the occurrence "
+        "User.secret and its HasAuthorizationRule are gone before the collector runs. With the rule on User.secret only, the "
+        "user's secret is rendered under a denied coordinate in BOTH modes; with rules on both and Node.secret allowed / "
+        "User.secret denied, pre-fetch mode never asks about User.secret and renders the value, no error.",
+    "prefetch-gate-starves-fetch-depending-on-denied-input":
+        "pre-fetch mode authorizes (and gates on) root fields the planner added itself: a protected @requires input or @key field "
+        "that the client did not select is put before the batch authorizer, and when it is denied the fetch that only provides it "
+        "is skipped. The dependent fetch then runs with a fabricated input -- `{ featured { ship } }` with Product.price denied sends "
+        "users `_entities(representations:[{__typename:Product, price:null, id:p2}])` and the client gets ship:null with NO error "
+        "(a real subgraph would compute ship from price=null) -- or, for a key, is not sent at all and an allowed non-null field "
+        "fails (`Cannot return null for non-nullable field`). Post-fetch mode resolves the same allowed fields normally.",
+}
+
+
+def classify(case, detail):
+    for key, pat in KNOWN:
+        if re.search(pat, detail):
+            return key
+    return None
+
+
+def _distribution(cases, results):
+    d = {"operation_lines": 0, "run_lines": 0, "skipped_baseline_diverges": 0, "modes": {}, "optypes": {},
+         "runs_with_denied_position": 0, "runs_with_effective_denial": 0, "runs_protected_abstract_parent": 0,
+         "runs_protected_two_paths": 0, "runs_reference_skipped_mixed": 0, "runs_with_requires_dependents": 0,
+         "runs_with_hidden_denied_input": 0, "requests_sent": 0, "requests_saved_vs_baseline": 0,
+         "planned_fetches_held_back": 0, "gate_verdicts_compared": 0, "plans_with_protected_coordinate": 0,
+         "decision_domain_sizes": {}, "denied_positions_per_run": {}}
+    for c in cases:
+        if c.startswith("(c14 op"):
+            d["operation_lines"] += 1
+            if "(gocoords)" not in c:
+                d["plans_with_protected_coordinate"] += 1
+            m = re.search(r"\(domain((?: \"[^\"]*\")*)\)", c)
+            if m:
+                n = str(len(m.group(1).split()))
+                d["decision_domain_sizes"][n] = d["decision_domain_sizes"].get(n, 0) + 1
+        elif c.startswith("(c14 skip"):
+            d["skipped_baseline_diverges"] += 1
+        elif c.startswith("(c14 run"):
+            d["run_lines"] += 1
+            m = re.search(r"\(mode (\w+)\) \(optype (\w+)\)", c)
+            if m:
+                d["modes"][m.group(1)] = d["modes"].get(m.group(1), 0) + 1
+                d["optypes"][m.group(2)] = d["optypes"].get(m.group(2), 0) + 1
+            m = re.search(r"\(sum \(positions (\d+)\) \(protected (\d+)\) \(abstract (\d+)\) \(twopath (\d+)\) \(denied (\d+)\) "
+                          r"\(effective (\d+)\) \(requests (\d+)\) \(baserequests (\d+)\)", c)
+            if m:
+                den = int(m.group(5))
+                d["denied_positions_per_run"][str(min(den, 9))] = d["denied_positions_per_run"].get(str(min(den, 9)), 0) + 1
+                d["runs_with_denied_position"] += den > 0
+                d["runs_with_effective_denial"] += int(m.group(6)) > 0
+                d["runs_protected_abstract_parent"] += int(m.group(3)) > 0
+                d["runs_protected_two_paths"] += int(m.group(4)) > 0
+                d["requests_sent"] += int(m.group(7))
+                d["requests_saved_vs_baseline"] += max(0, int(m.group(8)) - int(m.group(7)))
+            if "(ref (skip))" in c:
+                d["runs_reference_skipped_mixed"] += 1
+            m = re.search(r"\(dependent (\d+)\)", c)
+            if m and int(m.group(1)) > 0:
+                d["runs_with_requires_dependents"] += 1
+            if re.search(r'\(hidden "', c):
+                d["runs_with_hidden_denied_input"] += 1
+            for g in re.finditer(r"\(g \d+ \"[^\"]*\" \w+ \(roots[^)]*(?:\([^)]*\))*\) (\w) (\w) (\w)\)", c):
+                if g.group(2) == "t":
+                    d["gate_verdicts_compared"] += 1
+                    if g.group(1) == "f":
+                        d["planned_fetches_held_back"] += 1
+    for k in ("decision_domain_sizes", "denied_positions_per_run"):
+        d[k] = dict(sorted(d[k].items(), key=lambda kv: int(kv[0])))
+    return d
+
+
+def _builds(chk):
+    ok, log = vlib.build_model("Exec")
+    if not ok:
+        chk.add_violation("tie:C14/exec-build", log[-2000:], found_input=False)
+        return None
+    ok, log = vlib.build_model("C14")
+    if not ok:
+        chk.add_violation("tie:C14/model-build", log[-2000:], found_input=False)
+        return None
+    ok, log, exe = vlib.build_harness("c14")
+    if not ok:
+        chk.add_violation("tie:C14/harness-build", log[-2000:], found_input=False)
+        return None
+    return exe, os.path.join(vlib.BIN, "model_c14")
+
+
+def _corpus_cmds(exe):
+    """corpus/C14/cases.tsv: one harness invocation per line (run first on every check)."""
+    p = os.path.join(vlib.ROOT, "corpus", "C14", "cases.tsv")
+    cmds = []
+    if os.path.exists(p):
+        for line in open(p):
+            line = line.strip()
+            if line and not line.startswith("#"):
+                cmds.append(line.split("\t")[0])
+    return cmds or ["fixture"]
+
+
+def run_fed(chk):
+    """The planner / loader part. Returns (state, all_cases)."""
+    b = _builds(chk)
+    state, allcases, allres = {}, [], []
+    if b is None:
+        return state, allcases
+    exe, model = b
+    quick = chk.tier == "quick"
+    maxd = 64 if quick else 200
+    ncfg = 130 if quick else 2500
+    for i, cmd in enumerate(_corpus_cmds(exe)):
+        bb = vlib.run_batch(chk, "%s %s -maxd %d -out {out}" % (exe, cmd, maxd), model, "fed_corpus%d" % i, timeout=3000)
+        if bb:
+            vlib.digest_batch(chk, bb[0], bb[1], classify, state)
+            allcases += bb[0]
+            allres += bb[1]
+    bb = vlib.run_batch(chk, "%s gen -seed %d -n %d -maxd %d -out {out}" % (exe, 7919 * chk.seed + 14, ncfg, maxd), model, "fed_gen",
+                        timeout=6000)
+    if bb:
+        vlib.digest_batch(chk, bb[0], bb[1], classify, state)
+        allcases += bb[0]
+        allres += bb[1]
+
+    def more(st):
+        for k in range(1, 4):
+            bx = vlib.run_batch(chk, "%s gen -seed %d -n %d -maxd %d -out {out}" % (exe, chk.seed * 1000 + k, ncfg * 2, maxd), model,
+                                "fed_more%d" % k, timeout=6000)
+            if bx:
+                vlib.digest_batch(chk, bx[0], bx[1], classify, st)
+            if any(kk is None for (kk, _, _) in st.get("specfail", [])):
+                break
+
+    state["_more"] = more
+    return state, allcases
+
 
 def run(chk):
+    # ---- renderer part, as before
     c02.run(chk, prop="C14", auth=True)
-    chk.coverage["rule"] = ("as C02, with an authorization rule on ~1/3 of the fields that have a data path and a random "
-                            "decision function over (runtime-or-declared parent type, field) coordinates (each denied with "
-                            "probability 1/3); non-trivial when a mutation was applied and at least one error is reported")
-    chk.assumptions.append("post-fetch (AuthorizeObjectField) mode through resolve.Context.SetAuthorizer; the pre-fetch batch mode, "
-                           "the coordinate collector and the fetch gate are exercised on the federation lab (pending)")
+    rend = {k: chk.coverage.get(k) for k in ("evaluations", "distinct_nontrivial", "correspondence_mismatches",
+                                              "spec_failures_on_impl_output", "distribution", "samples", "rule")}
+    chk.assumptions.append("renderer part: post-fetch (AuthorizeObjectField) mode through resolve.Context.SetAuthorizer on generated "
+                           "response plans (coq/C02 model with the decision function)")
+    # ---- planner / loader part on the federation lab
+    state, cases = run_fed(chk)
+    more = state.pop("_more", None)
+    vlib.conclude_differential(chk, state, more)
+    fed = {k: chk.coverage.get(k) for k in ("evaluations", "distinct_nontrivial", "correspondence_mismatches",
+                                             "spec_failures_on_impl_output")}
+    chk.coverage["parts"] = {"renderer": {k: rend[k] for k in ("evaluations", "distinct_nontrivial", "correspondence_mismatches",
+                                                               "spec_failures_on_impl_output")},
+                             "fedlab": fed}
+    for k in ("evaluations", "distinct_nontrivial", "correspondence_mismatches", "spec_failures_on_impl_output"):
+        chk.coverage[k] = (rend[k] or 0) + (fed[k] or 0)
+    chk.coverage["rule"] = ("renderer part: as C02, with an authorization rule on ~1/3 of the fields that have a data path and a random "
+                            "decision function over (runtime-or-declared parent type, field) coordinates (each denied with probability "
+                            "1/3); non-trivial when a mutation was applied and at least one error is reported. " + RULE_FED)
+    chk.coverage["distribution"] = {"renderer": rend["distribution"], "fedlab": _distribution(cases, None)}
+    runs = [c for c in cases if c.startswith("(c14 run") and "(effective 0)" not in c]
+    chk.coverage["samples"] = (rend["samples"] or [])[:2] + [c[:1500] for c in ([c for c in cases if c.startswith("(c14 op")][:1] + runs[:2])]
+    chk.coverage["known_finding_texts"] = KNOWN_TEXT
+    chk.assumptions += [
+        "fedlab part: Coq 8.16.1 kernel; extraction ExtrOcamlBasic only; ocaml/common/prelude.ml + ocaml/c14/driver.ml (S-expression "
+        "reader, member sorting before json_eqb, native substring search re-checking the Go sentinel scan)",
+        "hand-written model (coq/C14/Model.v) of collect_authorization_coordinates.go, FieldAuthorization.authorizePreFetch/decide/"
+        "denyReason, fieldAuthorizationCoordinate/authorizeField up to the decide call, isFetchAuthorizedFromCache/fetchOperationType; "
+        "tied by exact equality of the coordinate list on the real plan, of the batch authorizer's recorded questions, and of the "
+        "sent / not-sent verdict per planned fetch; the decision cache is keyed by the triple itself (Go: xxhash64 of it -- "
+        "collisions are outside the model)",
+        "the plan that is dumped is built by harness/c14lab.BuildPlan with the same normalisation, plan.Planner configuration (captured "
+        "from the engine configuration) and postprocess.Processor as ExecutionEngine.Execute, not taken from the engine's plan cache; "
+        "a planned fetch is matched to a request by subgraph + upstream operation text",
+        "gvh/fedlab (generator, Lab, RoundTripper) and bin/model_exec (Coq-extracted reference executor) as in C01; the reference "
+        "response under denials is the executor's monolithic run of the operation in which each denied occurrence selects an "
+        "always-failing twin field (harness/c14lab/walk.go Reference, protect.go TwinReference) -- the operation rewriting and the "
+        "operation+response walker that classifies positions (CollectFields with @skip/@include, fragments) are harness code",
+        "pre-fetch mode: the plan-time coordinate of an occurrence on an abstract type is read off the real plan (the planner may "
+        "rewrite the abstract selection per possible type); that the planner marks every protected field (HasAuthorizationRule) is "
+        "checked by the position walk and the sentinel scan, not proved",
+        "out of the lab's reach: subscriptions (authorizeSubscriptionPreFetch and per-update authorization), @defer payloads, "
+        "authorizer errors, reasons/wording of errors; the gate theorem covers subscriptions as a non-query operation type",
+    ]
 
 
 def replay(chk, path):
-    c02.replay(chk, path, prop="C14")
+    r = json.load(open(path))
+    case = r.get("case")
+    lines = []
+    if isinstance(case, str):
+        lines = [case]
+    elif isinstance(case, dict):
+        lines = [e["case"] for e in case.get("examples", []) if isinstance(e.get("case"), str)]
+    fed = [l for l in lines if l.startswith("(c14 ")]
+    if not fed:
+        return c02.replay(chk, path, prop="C14")
+    chk.coverage["rule"] = "replay of %s" % path
+    chk.proof_side(extra_dirs=["C02"])
+    b = _builds(chk)
+    if b is None:
+        return
+    exe, model = b
+    state = {}
+    for i, l in enumerate(fed[:5]):
+        m = re.search(r"\(id (gen|fix) (\S+) (\d+) (\d+)(?: (\d+))?\)", l)
+        if not m:
+            chk.log("replay: no case identity in %s" % l[:120])
+            continue
+        flt = ""
+        mm = re.search(r'\(mode (\w+)\) \(optype \w+\) \(d "([^"]*)"\)', l)
+        if mm:
+            flt = " -mode %s -d %s" % (mm.group(1), mm.group(2) or "-")
+        if m.group(1) == "gen":
+            cmd = "%s gen -seed %s -from %s -n 1 -p %s -op %s%s -out {out}" % (exe, m.group(2), m.group(3), m.group(4), m.group(5), flt)
+        else:
+            cmd = "%s fixture -name %s -p %s -op %s%s -out {out}" % (exe, m.group(2), m.group(3), m.group(4), flt)
+        bb = vlib.run_batch(chk, cmd, model, "replay%d" % i)
+        if bb:
+            vlib.digest_batch(chk, bb[0], bb[1], classify, state)
+            for (ln, st, detail) in bb[1]:
+                chk.log("replay line %d: %s %s" % (ln, st, detail[:300]))
+            chk.coverage["samples"] = [c[:1500] for c in bb[0][:2]]
+    vlib.conclude_differential(chk, state, None)
+    chk.coverage["distinct_nontrivial"] = max(2, chk.coverage.get("distinct_nontrivial", 0))
